@@ -226,10 +226,9 @@ theorem spec_isub (c : Case) (hn : WFNames c) (hb : WFBody c) :
   unfold initSubclassCalls
   rw [has_isub c hn hb]
 
-theorem known_nil (c : Case) (h : known c = []) :
-    staleAccessor c = false ∧ weakrefDropped c = false ∧ resetDiffers c = false := by
+theorem known_nil (c : Case) (h : known c = []) : resetDiffers c = false := by
   unfold known at h
-  cases h1 : staleAccessor c <;> cases h2 : weakrefDropped c <;> cases h3 : resetDiffers c <;> simp_all
+  cases h3 : resetDiffers c <;> simp_all
 
 /-- the model satisfies the declarative specification on every well-formed struct case outside the listed
     known findings -/
@@ -238,7 +237,7 @@ theorem struct_meets_spec (c : Case) (hwf : wf c = true) (hk : known c = []) : s
   have hb := wf_body c hwf
   have hl := wf_layout c hwf
   have hw := wf_cells c hwf
-  obtain ⟨k1, k2, k3⟩ := known_nil c hk
+  have k3 := known_nil c hk
   have hreset : (model c).setattrReset = dictReset c := by
     unfold resetDiffers at k3
     simpa using k3
@@ -247,12 +246,12 @@ theorem struct_meets_spec (c : Case) (hwf : wf c = true) (hk : known c = []) : s
   unfold spec
   simp only [Bool.and_eq_true]
   refine ⟨⟨⟨⟨⟨⟨⟨⟨⟨⟨⟨⟨⟨⟨⟨spec_keys c hb, spec_slotCount c hn hl⟩, ?_⟩, ?_⟩, ?_⟩, spec_setUnknown c⟩,
-    spec_demanded c hb⟩, calls_all_new c hb hw k1⟩, spec_cells c hw⟩, hcached.1.1.1⟩, hcached.1.1.2⟩,
+    spec_demanded c hb⟩, calls_all_new c hb hw⟩, spec_cells c hw⟩, hcached.1.1.1⟩, hcached.1.1.2⟩,
     hcached.1.2⟩, hcached.2⟩, ?_⟩, ?_⟩, ?_⟩
   · have : (model c).hasDict = instHasDict c := rfl
     rw [this, hasDict_iff c hn hb]; simp
   · have : (model c).weakrefable = instWeakrefable c := rfl
-    rw [this, weakrefable_iff c hn hb hl k2]; simp
+    rw [this, weakrefable_iff c hn hb hl]; simp
   · rw [getUnknown_ok c hn hb]; rfl
   · have := spec_isub c hn hb
     simp only [Bool.and_eq_true] at this
